@@ -92,6 +92,12 @@ pub struct L1Table {
 }
 
 impl L1Table {
+    /// verification hook: number of dirty blocks of this table
+    #[cfg(qcow2_rs_verif)]
+    pub fn verif_dirty_blocks(&self) -> usize {
+        self.dirty_blocks.borrow().len()
+    }
+
     pub fn new(offset: Option<u64>, data_size: usize, header_entries: u32, bs_bits: u8) -> Self {
         let mut l1 = L1Table::new_empty(offset, data_size);
         l1.header_entries = header_entries;
